@@ -281,6 +281,7 @@ pub fn k02_items(thorough: bool) -> Vec<G> {
         Filter(b(Any)),
         Custom(2, true),
         Then(b(Just('a')), b(OrNot(b(Just('b'))))),
+        Validate(b(OneOf("ab")), 1),
     ];
     if thorough {
         let k = k01();
@@ -295,7 +296,7 @@ pub fn k02_items(thorough: bool) -> Vec<G> {
 }
 
 pub fn k02_seps(thorough: bool) -> Vec<G> {
-    let mut v = vec![Just(','), JustSeq(',', ',')];
+    let mut v = vec![Just(','), JustSeq(',', ','), Validate(b(Just(',')), 2)];
     if thorough {
         v.extend([OneOf(",b"), Then(b(Just(',')), b(OrNot(b(Just(','))))), Filter(b(Any))]);
     }
@@ -581,8 +582,15 @@ pub fn k_emit() -> Class {
         u1(|a| Some(Not(a))),
         u1(|a| Some(Rewind(a))),
         u1(|a| if nn(&a) { Some(Rep(a, Bounds::STAR, Sink::Vec)) } else { None }),
+        u1(|a| if nn(&a) { Some(Rep(a, Bounds::STAR, Sink::Bare)) } else { None }),
     ];
-    let binary = vec![u2(|a, c| Some(Then(a, c))), u2(|a, c| Some(Or(a, c))), u2(|a, c| Some(AndIs(a, c))), u2(|a, f| Some(Recover(a, f)))];
+    let binary = vec![
+        u2(|a, c| Some(Then(a, c))),
+        u2(|a, c| Some(Or(a, c))),
+        u2(|a, c| Some(AndIs(a, c))),
+        u2(|a, f| Some(Recover(a, f))),
+        u2(|a, s| if nn(&a) && nn(&s) { Some(SepBy(a, s, Bounds::STAR, false, false, Sink::Vec)) } else { None }),
+    ];
     Class { name: "Kemit", leaves, unary, binary, ternary: vec![] }
 }
 
@@ -744,4 +752,27 @@ pub fn ctx_families() -> Vec<G> {
         // a context observed after backtracking out of a provider
         Or(b(ThenWithCtx(b(Just('a')), b(Then(b(JustCtx), b(Just('c')))))), b(WithCtx('b', b(Then(b(Any), b(Rep(b(JustCtx), Bounds::STAR, Sink::Count))))))),
     ]
+}
+
+/// Focused output-elision class (C04): emitters under every eliding combinator, deep enough for an
+/// iteration that emits and then fails.
+pub fn k04_deep() -> Class {
+    let leaves = vec![Just('a'), Just('b'), Any];
+    let unary = vec![
+        u1(|a| Some(Validate(a, 1))),
+        u1(|a| if nn(&a) { Some(Rep(a, Bounds::STAR, Sink::Bare)) } else { None }),
+        u1(|a| if nn(&a) { Some(Rep(a, Bounds::new(1, Some(2)), Sink::Bare)) } else { None }),
+        u1(|a| Some(Ignored(a))),
+        u1(|a| Some(ToSlice(a))),
+        u1(|a| Some(OrNot(a))),
+    ];
+    let binary = vec![
+        u2(|a, c| Some(Then(a, c))),
+        u2(|a, c| Some(IgnoreThen(a, c))),
+        u2(|a, c| Some(ThenIgnore(a, c))),
+        u2(|a, c| Some(Or(a, c))),
+        u2(|a, p| Some(PaddedBy(a, p))),
+        u2(|a, s| if nn(&a) && nn(&s) { Some(SepBy(a, s, Bounds::STAR, false, true, Sink::Bare)) } else { None }),
+    ];
+    Class { name: "K04deep", leaves, unary, binary, ternary: vec![] }
 }
